@@ -71,14 +71,18 @@ def run(chk):
     rng = chk.rng
     from .. import translate_proteases
     prot_table, unmodelled = translate_proteases.translate(chk)
-    chk.lean_build(['PeptVerif.Props.C06', 'PeptVerif.Props.C06Regex', 'PeptVerif.Props.C06Seq'], DRV)
+    # spans.py -> Generated/SpansPy.lean + Props/C06Gen.lean (equality theorems with the hand model), regenerated on change
+    from .. import translate_spans
+    gen_done, gen_unt = translate_spans.translate(chk)
+    chk.lean_build(['PeptVerif.Props.C06', 'PeptVerif.Props.C06Regex', 'PeptVerif.Props.C06Seq', 'PeptVerif.Props.C06Gen'], DRV)
     if tier == 'thorough':
         chk.leanchecker(['PeptVerif.Props.C06', 'PeptVerif.Lemmas.SpansDigest', 'PeptVerif.Lemmas.SpansNodup',
                          'PeptVerif.Lemmas.SpansSemi', 'PeptVerif.Lemmas.SpansEnz', 'PeptVerif.Lemmas.SpansGroup',
                          'PeptVerif.Lemmas.SpansSort', 'PeptVerif.Lemmas.SpansBasic', 'PeptVerif.Lemmas.Spans',
                          'PeptVerif.Spec.Spans', 'PeptVerif.Model.Spans',
                          'PeptVerif.Props.C06Seq', 'PeptVerif.Lemmas.SpansSeqText', 'PeptVerif.Lemmas.SpansSeq',
-                         'PeptVerif.Spec.SeqDigest', 'PeptVerif.Model.SeqDigest'])
+                         'PeptVerif.Spec.SeqDigest', 'PeptVerif.Model.SeqDigest',
+                         'PeptVerif.Props.C06Gen', 'PeptVerif.Lemmas.SpansGen', 'PeptVerif.Generated.SpansPy'])
     if chk.lean_problems:
         # name the table entries that differ from the hand-typed reference (witness for proteases_match_reference)
         try:
